@@ -308,7 +308,7 @@ pub fn campaigns(ctx: &Ctx) -> Stats {
             Some(f)
         }));
     }
-    let total = t.pick(20000u64, 400000);
+    let total = t.pick(80000u64, 400000);
     let mxs = t.pick(7usize, 10);
     let strat = move || (1..=mxs, 1..=mxs, 1..=mxs, 2..=4usize, 2..=4usize, any::<usize>(), any::<u64>()).prop_map(|(r, k, c, m, n, sel, vseed)| MmRecipe { r, k, c, m, n, sel, vseed }).boxed();
     st.merge(ctx.run_prop("random-sizes-and-values", total, strat, random_case));
